@@ -45,7 +45,7 @@ func buildDocumentIdentifier(doc *spdx23.Document) string {
 
 // ParseStream reads an io.Reader to parse an SPDX 2.3 document from it
 func (u *SPDX23) Unserialize(r io.Reader, _ *native.UnserializeOptions, _ interface{}) (*sbom.Document, error) {
-	spdxDoc, err := spdxjson.Read(r)
+	spdxDoc, err := readSPDXDocument(r)
 	if err != nil {
 		return nil, fmt.Errorf("parsing SPDX json: %w", err)
 	}
@@ -96,6 +96,19 @@ func (u *SPDX23) Unserialize(r io.Reader, _ *native.UnserializeOptions, _ interf
 	}
 
 	return bom, nil
+}
+
+// readSPDXDocument decodes the SPDX document in r. The SPDX library panics on
+// some malformed documents (eg a null entry in the package list), those are
+// returned as errors.
+func readSPDXDocument(r io.Reader) (doc *spdx23.Document, err error) {
+	defer func() {
+		if p := recover(); p != nil {
+			doc = nil
+			err = fmt.Errorf("malformed SPDX document: %v", p)
+		}
+	}()
+	return spdxjson.Read(r)
 }
 
 // packageToNode assigns the data from an SPDX package into a new Node
